@@ -306,6 +306,23 @@ def _stride_views(L, rng):
         _stride_views(x, rng)
 
 
+def _revalued(L, rng):
+    """a copy of the layout with every NumPy leaf holding other numbers of another dtype"""
+    import copy
+    M = copy.deepcopy(L)
+
+    def go(n):
+        if n.get("c") == "Numpy" and "st" not in n:
+            n["dt"] = "f64" if n["dt"] in ("i64", "i32", "u8", "b") else "i64"
+            n["d"] = [rng.randint(-3, 9) + 20 for _ in n["d"]]
+        if "x" in n:
+            go(n["x"])
+        for x in n.get("xs", []):
+            go(x)
+    go(M)
+    return M
+
+
 def _rand_layout(rng, depth, allow_record=True, allow_union=False):
     """a random VALID layout (returned with its length), larger and deeper than the model checker's bound: every list class
     and index width, offsets that do not start at zero, gaps / overlaps / out-of-order lists, all five option encodings,
@@ -371,7 +388,12 @@ def _rand_layout(rng, depth, allow_record=True, allow_union=False):
             length, isopt = length // size, False
         elif kind == "union" and L.get("c") != "Union" and rng.random() < 0.6:
             # a UnionArray whose tags/index cover its two contents partially, repeatedly and out of order
-            other, olen = _rand_layout(rng, rng.randint(0, 2), allow_record=False)
+            if rng.random() < 0.5:
+                # the other member has the SAME shape with other numbers (what concatenating int and float lists, or
+                # ak.where of two like arrays, leaves behind)
+                other, olen = _revalued(L, rng), length
+            else:
+                other, olen = _rand_layout(rng, rng.randint(0, 2), allow_record=False)
             if other.get("c") == "Union":
                 continue
             lens = [length, olen]
